@@ -35,6 +35,10 @@ class Obj:
         return hash(("Obj", self.i))
 
 
+TUPLES = {4: (), 5: (7,), 6: (1, 2)}
+TUPLE_IDS = {v: k for k, v in TUPLES.items()}
+
+
 class SerOut:
     def __init__(self, sid, k, v):
         self.sid, self.k, self.v = sid, k, v
@@ -91,6 +95,8 @@ class Runtime:
         self.offered_reg = []  # parallel to `offered`: `reg` at the moment of the call
         self.add_windows = []
         self.typed_calls = []
+        self.raw_reports = []
+        self.mtypes = {}
         self.with_exits = []  # (uuid tag, level) of every action left through `with action:`
         self.reserved = []  # every id returned by serialize_task_id
         self.failures = []  # (dest, call index, exc id, was the message a report?)
@@ -193,8 +199,12 @@ class Runtime:
                     c = rt.canon_msg(message)
                     rt.offered.append([d, c])
                     rt.offered_reg.append(None if rt.reg is None else list(rt.reg))
+                    if isinstance(message, dict) and message.get("message_type") == "eliot:destination_failure":
+                        rt.raw_reports.append((d, message.get("message")))
                     if (d, k) in rt.dest_fail:
-                        rt.failures.append((d, k, rt.dest_fail[(d, k)], c.get("message_type") == "eliot:destination_failure", c))
+                        # what a report about this failure has to show of the message: repr of every key and value
+                        shown = {_safe_repr(kk): _safe_repr(vv) for kk, vv in message.items()} if isinstance(message, dict) else None
+                        rt.failures.append((d, k, rt.dest_fail[(d, k)], c.get("message_type") == "eliot:destination_failure", c, shown))
                         raise rt.make_exc(rt.dest_fail[(d, k)])
                     rt.accepted.append([d, c])
 
@@ -211,7 +221,8 @@ class Runtime:
         if "s" in fv:
             return fv["s"]
         if "o" in fv:
-            return Obj(fv["o"])
+            # objects 4..6 are tuples (opaque objects for the model; they exercise %-formatting and repr paths in the library)
+            return TUPLES.get(fv["o"]) if fv["o"] in TUPLES else Obj(fv["o"])
         raise ValueError(fv)
 
     def kwargs(self, fields):
@@ -241,6 +252,8 @@ class Runtime:
             return v
         if isinstance(v, Obj):
             return {"obj": v.i}
+        if isinstance(v, tuple) and v in TUPLE_IDS:
+            return {"obj": TUPLE_IDS[v]}
         if isinstance(v, SerOut):
             return {"ser": [v.sid, v.k, self.canon_plain(v.v)]}
         if isinstance(v, list) and all(isinstance(x, int) for x in v):
@@ -461,7 +474,10 @@ def _log_with(rt, target, ms):
     # the same logging call has several spellings in the public API (some deprecated); rotate through them
     variant = len(rt.api) % 3
     if ms.get("sers") is not None:
-        mt = eliot.MessageType(ms["mtype"], [rt.field(k, sid) for k, sid in ms["sers"]])
+        tkey = (ms["mtype"], tuple((k, sid) for k, sid in ms["sers"]))
+        if tkey not in rt.mtypes:
+            rt.mtypes[tkey] = eliot.MessageType(ms["mtype"], [rt.field(k, sid) for k, sid in ms["sers"]])
+        mt = rt.mtypes[tkey]  # the same type object (and Field objects) every time the program logs through this type
         rt.typed_calls.append(len(rt.writes))  # the next Logger.write is this typed message's
         if target is None:
             if variant == 1:
